@@ -78,6 +78,16 @@ for _in in (True, False):
                           encodes=["hypnotoad.core.mesh:MeshRegion.__init__"],
                           desc="the points sharing poloidal index m on successive surfaces all come from the single followPerpendicular call started at skeleton point m",
                           stubs=["followPerpendicular -> tagged points"], bounds="3x3"))
+def _field_in_workers(env):
+    import harness.c13 as m   # resolved at call time
+    return m._mk(2, 1, may_fail=False)(env)
+
+
+OBLIGATIONS.append(Ob("integrated_field_in_worker_processes", _field_in_workers, tier="quick", family="closures",
+                      desc="followPerpendicular tasks run through the real ParallelMap (serial path and 2 model worker processes, every schedule) receive the "
+                           "equilibrium's own f_R and f_Z in their roles (shared with C13)",
+                      encodes=["hypnotoad.utils.parallel_map:ParallelMap.worker_run", "hypnotoad.utils.parallel_map:ParallelMap.__call__"],
+                      stubs=["multiprocessing -> FIFO/baton model"], bounds="2 workers, 1 task, all interleavings", max_paths=20000))
 OBLIGATIONS.append(Ob("integrated_field_evaluated_at_the_current_point", c18.ob_closure_arguments, tier="quick", family="closures",
                       encodes=["hypnotoad.core.equilibrium:Equilibrium.magneticFunctionsFromGrid"],
                       desc="f_R, f_Z evaluate the interpolant at the point handed to them (clip to the grid box is the identity inside the box)",
